@@ -47,6 +47,16 @@ def case(rep, drv, rnd, i, tier):
         style = rnd.choice(['explicit', 'inferred', 'variadic'])
         yv = rnd.choice([True, False])
         raise_at = rnd.randint(0, len(rows)) if raise_case and rnd.random() < 0.5 else None
+        clauses = [c for c in prog if (c[0], len(c[1])) == (name, arity)]
+        if style != 'variadic' and len(rows) >= 2 and raise_at is None and rnd.random() < 0.35:
+            # half of the predicate stays Prolog, chained behind the Python half by a second load
+            h = rnd.randint(1, len(rows) - 1)
+            ops_py.append(('regpy', name, arity, rows[:h], None, style, yv))
+            ops_py.append(('load', 'combine', clauses[h:]))
+            rep.count('python-half-chained-with-compiled-half')
+            rep.count('style:' + style)
+            rep.count('yield:' + str(yv))
+            continue
         ops_py.append(('regpy', name, None if style == 'variadic' else arity, rows, raise_at, style, yv))
         rep.count('style:' + style)
         rep.count('yield:' + str(yv))
@@ -91,7 +101,7 @@ def run(tier):
         par.run_cases(chk.rep, 'harness.checks.c20', 'case', n)
         chk.finish(rule='random programs (cut, ;, ->, \\+, meta-calls) in which a random non-empty subset of the fact predicates is '
                         're-implemented as registered Python generators (explicit / inferred / variadic arity; yield True or '
-                        'False; optionally raising at the j-th row; optionally next to dynamic facts; optionally called before '
+                        'False; optionally raising at the j-th row; optionally only the first rows in Python with the remaining clauses chained behind by a second load; optionally next to dynamic facts; optionally called before '
                         'the registration exists), queried through rules and through call/N and findall/3 from the API: answers must '
                         'equal those of the all-compiled program on the real engine and those of the reference; an exception raised '
                         'inside the function must reach the consumer as that exception with all variables unbound; non-trivial = a '
